@@ -21,6 +21,18 @@ claimed = {
    text="Proof: n == len(p) on success for the zap writers under contract, Lock/AddSync/NewMultiWriteSyncer relay and wrapping rules, multi-WriteSyncer: same bytes to every sink, minimum count, all errors folded, Sync reaches every sink (loop invariants over a ghost call log, any number of sinks and outcome vectors).",
    note=BASE_NOTE + "User sinks are arbitrary (n, err) under the encapsulation rely; mutual exclusion for all interleavings follows from the proved lock discipline only by the (unmechanised) lock-invariant meta-theorem.",
    ref="7 (C13)"),
+ "C03": dict(
+   text="Proof: every typed constructor of package zap (69 functions: scalars, pointer variants, slice wrappers, NamedError/Error, Reflect/Stringer/Object/Inline/Namespace/Skip) yields exactly the tagged-union field its documentation announces, for all values of the parameter type (bit-vector arithmetic for every cast); pointer variants give the explicit-null field for nil; Field.Equals never panics on well-formed fields (comparability obligations on ==).",
+   note=BASE_NOTE + "zap.Any's 80-way dispatch (interface method call through a generic function value) is outside the executor's subset: its contract is marked trusted and NOT counted as proved; Time/Timep/Stack/Dict/generic slice constructors and zapfield are not under contract yet; Equals' reflexivity/symmetry are not proved (reflect.DeepEqual and NaN payloads).",
+   ref="7 (C03)"),
+ "C06": dict(
+   text="Proof of the call chain for every front end under contract (Logger.{Debug..Fatal,Log,Check}, all 32 SugaredLogger methods via log/logln, zapgrpc Fatal/Fatalln/Fatalf): exactly one check at the method's level; at Panic/Fatal (DPanic in development) the checked entry is non-nil and carries override(default, configured hook) whether or not the level is enabled or the core accepts; CheckedEntry.Write writes every core exactly once, in order, then runs the hook exactly once; default actions panic / call exit.With(1); ioCore.Write syncs after a successful write above Error.",
+   note=BASE_NOTE + "Real process exit, the exit status seen from outside and sink contents at termination are outside (crash points). User hooks and cores are arbitrary under the interface contracts.",
+   ref="7 (C06)"),
+ "C14": dict(
+   text="Proof: sweetenFields never panics (index safety for key/value pairs) and satisfies the conservation invariant in counting form - every consumed argument position is accounted for by a result field, a diagnostic error-level entry, an Any conversion or an invalid pair; at most one invalid-pairs report; message construction of getMessage/getMessageln by cases; every sugared method hands its level, template and arguments to log/logln unchanged.",
+   note=BASE_NOTE + "fmt.Sprint/Sprintf/Sprintln are uninterpreted (deterministic); zap.Any is trusted here (C03). The order clause (fields keep argument order) is not proved. Infof(\"\", args) uses Sprint, which equals the property's reading only through fmt's behaviour (not decided).",
+   ref="7 (C14)"),
  "C05": dict(
    text="Proof per function: delivery iff enabled through ioCore/tee/level-filter/hooked/sampler Check (each verified against the Core.Check interface contract, which is the AddCore accumulation discipline), increase-level validation over all seven levels, LevelOf / tee / AtomicLevel / Logger.Level reports for all 256 int8 values, the Logger.check pre-check does nothing else (no clock read, no Check, no Write).",
    note=BASE_NOTE + "Level enablers are functions of (enabler, level) within one verified call; user cores obey the Core.Check interface contract (encapsulation rely). Out-of-range levels under non-monotone enablers in an increase-level core: not proved.",
